@@ -717,7 +717,7 @@ variable (c : FCfg) (k : Int)
 
 theorem lower_overlap (hm : c.measure = .overlap) (ht : c.threshold = .int k) (n : Nat) : c.lower n = k := by
   unfold FCfg.lower FCfg.lowerV Gen.get_size_lower_bound
-  simp only [hm, ht, Measure.name, ov_e1, ov_e2, ov_e3, ov_e4, ov_e5, Bool.false_eq_true, if_false, if_true, PyV.toIntD]
+  simp only [hm, ht, Measure.name, ov_e1, ov_e2, ov_e3, ov_e4, ov_e5, Bool.false_eq_true, if_false, if_true, PyV.ceil, PyV.toInt, PyV.toIntD]
 
 theorem upper_overlap (hm : c.measure = .overlap) (n : Nat) : c.upper n = maxsize := by
   unfold FCfg.upper FCfg.upperV Gen.get_size_upper_bound
@@ -726,7 +726,7 @@ theorem upper_overlap (hm : c.measure = .overlap) (n : Nat) : c.upper n = maxsiz
 
 theorem ovThr_overlap (hm : c.measure = .overlap) (ht : c.threshold = .int k) (l r : Nat) : c.ovThr l r = k := by
   unfold FCfg.ovThr FCfg.ovThrV Gen.get_overlap_threshold
-  simp only [hm, ht, Measure.name, ov_e1, ov_e2, ov_e3, ov_e4, ov_e5, Bool.false_eq_true, if_false, if_true, PyV.toIntD]
+  simp only [hm, ht, Measure.name, ov_e1, ov_e2, ov_e3, ov_e4, ov_e5, Bool.false_eq_true, if_false, if_true, PyV.ceil, PyV.toInt, PyV.toIntD]
 
 theorem prefixLen_overlap (hm : c.measure = .overlap) (ht : c.threshold = .int k) (n : Nat) :
     c.prefixLen n = if n = 0 then 0 else max ((n : Int) - k + 1) 0 := by
@@ -739,10 +739,10 @@ theorem prefixLen_overlap (hm : c.measure = .overlap) (ht : c.threshold = .int k
       PyV.numVal?]
     by_cases h : (n : Int) - k + 1 < 0
     · have h' : (((n : Int) - k + 1 : Int) : Rat) < ((0 : Int) : Rat) := by exact_mod_cast h
-      simp only [h', decide_true, if_true, PyV.toIntD]
+      simp only [h', decide_true, if_true, PyV.toInt, PyV.toIntD]
       omega
     · have h' : ¬ (((n : Int) - k + 1 : Int) : Rat) < ((0 : Int) : Rat) := by exact_mod_cast h
-      simp only [h', decide_false, Bool.false_eq_true, if_false, PyV.toIntD]
+      simp only [h', decide_false, Bool.false_eq_true, if_false, PyV.toInt, PyV.toIntD]
       omega
 
 variable (tau q : Int)
@@ -750,12 +750,12 @@ variable (tau q : Int)
 theorem lower_ed (hm : c.measure = .editDistance) (ht : c.threshold = .int tau) (n : Nat) :
     c.lower n = (n : Int) - tau := by
   unfold FCfg.lower FCfg.lowerV Gen.get_size_lower_bound
-  simp only [hm, ht, Measure.name, ed_e1, ed_e2, ed_e3, Bool.false_eq_true, if_false, if_true, PyV.sub, PyV.toIntD]
+  simp only [hm, ht, Measure.name, ed_e1, ed_e2, ed_e3, Bool.false_eq_true, if_false, if_true, PyV.sub, PyV.ceil, PyV.toInt, PyV.toIntD]
 
 theorem upper_ed (hm : c.measure = .editDistance) (ht : c.threshold = .int tau) (n : Nat) :
     c.upper n = (n : Int) + tau := by
   unfold FCfg.upper FCfg.upperV Gen.get_size_upper_bound
-  simp only [hm, ht, Measure.name, ed_e1, ed_e2, ed_e3, Bool.false_eq_true, if_false, if_true, PyV.add, PyV.toIntD]
+  simp only [hm, ht, Measure.name, ed_e1, ed_e2, ed_e3, Bool.false_eq_true, if_false, if_true, PyV.add, PyV.floor, PyV.toInt, PyV.toIntD]
 
 theorem ovThr_ed (hm : c.measure = .editDistance) (ht : c.threshold = .int tau) (hq : c.qval = .int q) (l r : Nat) :
     c.ovThr l r = max (l : Int) r - q * tau := by
@@ -764,10 +764,10 @@ theorem ovThr_ed (hm : c.measure = .editDistance) (ht : c.threshold = .int tau) 
     PyV.mul, PyV.max, PyV.gtb, PyV.ltb, PyV.numVal?]
   by_cases h : (l : Int) + q - 1 < (r : Int) + q - 1
   · have h' : (((l : Int) + q - 1 : Int) : Rat) < (((r : Int) + q - 1 : Int) : Rat) := by exact_mod_cast h
-    simp only [h', decide_true, if_true, PyV.toIntD]
+    simp only [h', decide_true, if_true, PyV.ceil, PyV.toInt, PyV.toIntD]
     omega
   · have h' : ¬ (((l : Int) + q - 1 : Int) : Rat) < (((r : Int) + q - 1 : Int) : Rat) := by exact_mod_cast h
-    simp only [h', decide_false, Bool.false_eq_true, if_false, PyV.toIntD]
+    simp only [h', decide_false, Bool.false_eq_true, if_false, PyV.ceil, PyV.toInt, PyV.toIntD]
     omega
 
 end Shapes
